@@ -50,7 +50,8 @@ Definition parse_int (bs : list byte) : option Z :=
 
 Inductive dres :=
 | DDir (letter : byte) (colon at_ : bool) (params : list param) (pos argpos : Z)
-| DInvalid | DFault | DEnd (pos argpos : Z).
+| DInvalid | DFault | DEnd (pos argpos : Z)
+| DUnm.      (* a byte above 127 after a quote: utf8.DecodeRune decides how many bytes belong to it; not modelled *)
 
 (* readDir: pos is just past the tilde *)
 Fixpoint read_dir (tb : tabs) (s : list byte) (end_ : Z) (args : list fmtarg) (pos argpos : Z) (colon at_ : bool) (params : list param) (fuel : nat) : dres :=
@@ -71,7 +72,7 @@ Fixpoint read_dir (tb : tabs) (s : list byte) (end_ : Z) (args : list fmtarg) (p
             | Some prev => read_dir tb s end_ args pos argpos colon at_ (if N.eqb prev 126%N || N.eqb prev 44%N then params ++ [PNil] else params) f
             end
           else if N.eqb b 35%N then read_dir tb s end_ args pos argpos colon at_ (params ++ [PInt (Z.of_nat (length args) - argpos)]) f
-          else if N.eqb b 118%N then
+          else if N.eqb b 118%N || N.eqb b 86%N then      (* v, V (repo_fixes/C15-7) *)
             if (0 <=? argpos)%Z then
               if (Z.of_nat (length args) <=? argpos)%Z then DInvalid            (* needArg *)
               else match nth_error args (Z.to_nat argpos) with
@@ -81,14 +82,15 @@ Fixpoint read_dir (tb : tabs) (s : list byte) (end_ : Z) (args : list fmtarg) (p
                    end
             else read_dir tb s end_ args pos argpos colon at_ (params ++ [PNil]) f
           else if N.eqb b 39%N then
-            match param_end tb s end_ pos (length s) with
-            | None => DFault
-            | Some e => match slice s pos e with
-                        | None => DFault
-                        | Some [] => DInvalid                    (* ReadCharacter of nothing: parse-error *)
-                        | Some p => read_dir tb s end_ args e argpos colon at_ (params ++ [PChar p]) f
-                        end
-            end
+            (* the character after the quote, whatever it is (repo_fixes/C15-8: utf8.DecodeRune(c.str[c.pos:c.end])
+               after the test c.end <= c.pos); it used to be readParam up to the next marked byte + ReadCharacter *)
+            if negb (pos <? end_)%Z then DInvalid
+            else match slice s pos end_ with
+                 | None => DFault
+                 | Some [] => DFault
+                 | Some (b1 :: _) => if (b1 <? 128)%N then read_dir tb s end_ args (pos + 1) argpos colon at_ (params ++ [PChar [b1]]) f
+                                     else DUnm
+                 end
           else if N.eqb b 45%N || is_digit b then
             match param_end tb s end_ (pos - 1) (length s) with
             | None => DFault
@@ -185,6 +187,7 @@ Fixpoint process (tb : tabs) (s : list byte) (end_ : Z) (args : list fmtarg) (po
           if negb (N.eqb b 126%N) then process tb s end_ args (pos + 1) argpos (out ++ [b]) f
           else match read_dir tb s end_ args (pos + 1) argpos false false [] (S (length s)) with
                | DFault => OFault
+               | DUnm => OUnmodelled
                | DInvalid => OError
                | DEnd p a => process tb s end_ args p a out f
                | DDir l colon at_ params p a =>
@@ -201,7 +204,9 @@ Fixpoint process (tb : tabs) (s : list byte) (end_ : Z) (args : list fmtarg) (po
                      match count_of params with Some n => process tb s end_ args p a (out ++ rep n 12%N) f | None => OError end
                    else if N.eqb l 42%N then       (* ~* *)
                      match move_of colon at_ params a with
-                     | MPos a' => process tb s end_ args p a' out f
+                     | MPos a' => (* the new position must be in 0..len(args) (repo_fixes/C15-15) *)
+                                  if (a' <? 0)%Z || (Z.of_nat (length args) <? a')%Z then OError
+                                  else process tb s end_ args p a' out f
                      | MErr => OError
                      | MUnm => OUnmodelled end
                    else if N.eqb l 84%N || N.eqb l 116%N then   (* ~T ~t *)
